@@ -147,10 +147,19 @@ CLAIMS['C10'] = dict(
 
 _BOUNDED_ONLY = ('BOUNDED STAND-IN ONLY, no proof: %s No obligation is discharged for this property; its contract is checked by exhaustive enumeration over a stated '
                  'finite space on the real crate (bounded/: %s), as the stand-in the technique allows for functions outside the verifier\'s reach.')
-CLAIMS['C15'] = dict(category='other', technique='bounded enumeration of the function contract (stand-in for contract-based deductive verification)',
-    text=_BOUNDED_ONLY % ('SourceView::get_line builds its line index behind a std Mutex with an atomic progress counter and re-borrows the text through '
-         'unsafe slice::from_raw_parts / from_utf8_unchecked; Verus accepts none of these and Kani runs out of memory on this crate.', 'sourceview'),
-    note='Bound: all texts of length <= 5 over {a, LF, CR, e-acute, U+1F600}, 4 access orders each, all (col, span) per line plus extreme values. Single-threaded only (C16 is not applicable).',
+CLAIMS['C15'] = dict(
+    text='Unbounded proof for a view used by one thread (R-seq: the Mutex / AtomicUsize cells read as plain cells behind `&mut self`): the real text of SourceView::get_line is verified '
+         'against an invariant of the lazily built index -- the cached lines are the first pieces of the text split at \\r\\n, \\n or lone \\r, and processed_until is the offset where the '
+         'remaining pieces start (length + 1 once all are cached) -- established by new, preserved by every method, so that the answer for line i is the i-th piece and nothing past the '
+         'end as a function of the text and i alone, i.e. for every order of earlier requests; the validity of the bytes handed to the unsafe from_utf8_unchecked is a discharged '
+         'obligation (cutting valid UTF-8 at an ASCII terminator leaves valid UTF-8, over vstd\'s UTF-8 specification); line_count is the number of pieces; Lines::next yields line idx and '
+         'advances until the pieces run out; the body of get_line_slice is verified against "nothing if the line has fewer than col+span UTF-16 units, else the characters from the first '
+         'boundary at or after col up to the first boundary at or after col+span" (a character straddling the end is included whole), with offsets proved to be the UTF-8 offsets of those '
+         'boundaries. Every loop terminates, no index / arithmetic / unwrap can fail.',
+    note=_TB + 'Assumed: the sequential cell model of std Mutex / AtomicUsize (one thread; C16 is not applicable), a 64-bit usize, str::as_bytes / len, slice position, char::len_utf16, '
+         'chars().peekable(), str::get(a..b) at character offsets, Option::and_then; the raw-pointer lifetime extension of the cached lines (memory safety of the self-referential cache) is not verified; '
+         'fewer than 2^32 lines for line_count / Lines. SourceView::from_string, clone, source, sourcemap_reference and the Iterator trait plumbing of Lines are not under contract. '
+         'The bounded stand-in sourceview still runs through the public API (real Mutex / atomics).',
     design_ref='DESIGN.md 5 C15')
 CLAIMS['C17'] = dict(category='other', technique='bounded enumeration of the function contract (stand-in for contract-based deductive verification)',
     text=_BOUNDED_ONLY % ('function-name resolution runs on SourceView (see C15), the if_chain! macro, char iterators walked backwards and the Unicode identifier tables of a dependency.', 'function_name'),
@@ -195,6 +204,7 @@ NOT_APPLICABLE['C16'] = ('concurrency (interleavings of threads sharing a Source
 
 # parts of each property that no discharged obligation covers (reported in every evidence file, never counted)
 NOT_COVERED = {
+    'C15': ['the sequential reading of Mutex / AtomicUsize is an assumption (R-seq); threads are C16', 'SourceView::from_string / clone (other constructors), Lines as an Iterator impl (verified as the inherent method, R-trait-inherent)', 'the unsafe lifetime extension of cached lines'],
     'C18': ['locate_sourcemap_reference (BufReader::lines, from_utf8 of a byte slice, trim): bounded stand-in discover', 'to_data_url / decode_data_url round trip (base64 of two crates): bounded', 'is_sourcemap / is_sourcemap_slice wiring around serde_json: bounded (header, discover)'],
     'C19': ['make_relative_path itself (iterator-adapter chain: split / filter / collect / sort_by_key / repeat / take / join): bounded stand-in relpath', 'find_common_prefix (the rewrite "~" option): not part of C19'],
     'C20': ['scroll::Pread internals and the derive(Pread) expansion (assumed contracts; exercised by the bounded stand-in ram_bundle)', 'UnbundleRamBundle (file-system based variant)', 'split_ram_bundle / SplitRamBundleModuleIter (composition with flatten and SourceMapBuilder)', 'that Iterator::next of RamBundleModuleIter is the inherent body verified here (R-trait-inherent: same text, emitted outside the trait impl)'],
